@@ -4,6 +4,7 @@ import (
 	"fmt"
 	"go/ast"
 	"go/token"
+	"go/types"
 	"math/big"
 	"strings"
 )
@@ -489,16 +490,55 @@ func ruleThresholds(c *Ctx) {
 				ok2 := t.Cmp(new(big.Int).Lsh(big.NewInt(1), 62)) < 0
 				return ok1 && ok2, "the cap must exceed any realisable digit count (>= 2^40) and keep exp·10+9 ± nfrac inside int64 (< 2^62)"
 			}},
-		{fn: "Decimal.Float64", what: "zero early-out `exp < A`", props: []string{"C09"}, extract: guard("Decimal.Float64", "exp", token.LSS, 0),
+		{fn: "Decimal.Float64", what: "zero early-out `exp < A`", props: []string{"C09", "C19"}, extract: guard("Decimal.Float64", "exp", token.LSS, 0),
 			admissible: func(a int64) (bool, string) {
 				// cmax·10^(A-1) must be below half of the smallest subnormal 2^-1075
 				h := new(big.Float).SetPrec(300).SetMantExp(big.NewFloat(1), -1075)
 				return mulf(cmax, f10(int(a-1))).Cmp(h) < 0, "cmax·10^(A-1) < 2^-1075"
 			}},
-		{fn: "Decimal.Float64", what: "overflow early-out `exp > B`", props: []string{"C09"}, extract: guard("Decimal.Float64", "exp", token.GTR, 0),
+		{fn: "Decimal.Float64", what: "overflow early-out `exp > B`", props: []string{"C09", "C19"}, extract: guard("Decimal.Float64", "exp", token.GTR, 0),
 			admissible: func(b int64) (bool, string) {
 				h := new(big.Float).SetPrec(300).SetMantExp(big.NewFloat(1), 1024)
 				return f10(int(b+1)).Cmp(h) >= 0, "10^(B+1) >= 2^1024"
+			}},
+		{fn: "Log1p", what: "|x| >= 1 is tested only when `dExp > T`", props: []string{"C16", "C15"},
+			extract: func(p *Prog, fd *ast.FuncDecl) (int64, ast.Node, bool) {
+				// the if statement that guards the comparison of the coefficient with a power-of-ten table entry
+				var k int64
+				var node ast.Node
+				found := false
+				ast.Inspect(fd.Body, func(n ast.Node) bool {
+					ifs, isIf := n.(*ast.IfStmt)
+					if !isIf || found {
+						return true
+					}
+					x, op, kb, ok := p.normCmp(ifs.Cond)
+					if !ok || op != token.GTR || !kb.IsInt64() {
+						return true
+					}
+					if b, isB := p.Info.TypeOf(x).Underlying().(*types.Basic); !isB || b.Info()&types.IsInteger == 0 || b.Info()&types.IsUnsigned != 0 {
+						return true
+					}
+					hasTab := false
+					ast.Inspect(ifs.Body, func(m ast.Node) bool {
+						if ix, isIx := m.(*ast.IndexExpr); isIx {
+							if o := p.objOf(ix.X); o != nil && p.constTableOf(o) != nil {
+								hasTab = true
+							}
+						}
+						return true
+					})
+					if hasTab {
+						k, node, found = kb.Int64(), ifs, true
+					}
+					return true
+				})
+				return k, node, found
+			},
+			admissible: func(t int64) (bool, string) {
+				// skipped for dExp <= T: every coefficient (below 2^114) times 10^T must stay below 1
+				two114 := new(big.Float).SetPrec(300).SetInt(new(big.Int).Lsh(big.NewInt(1), 114))
+				return mulf(two114, f10(int(t))).Cmp(big.NewFloat(1)) < 0, "2^114·10^T < 1, i.e. T <= -35: for smaller exponents no coefficient reaches magnitude 1"
 			}},
 		{fn: "Decimal.PowWithMode", what: "power-of-ten shortcut exit `oSig[0] > C`", props: []string{"C18"},
 			extract: func(p *Prog, fd *ast.FuncDecl) (int64, ast.Node, bool) {
